@@ -285,6 +285,37 @@ Fixpoint check_tree (t : tree) : Z :=
     else fold_left (fun acc c => if negb (acc =? 0) then acc else check_tree c) ch 0
   end.
 
+(* ---------- consistency of the flags of a node with those of its children ----------
+   series-parallel extension, pivots, 1- and 2-sums preserve regularity, graphicness and cographicness in both
+   directions; Delta-, Y- and 3-sums preserve regularity.  If every flag tells the truth, then a positive flag of such a
+   node is never accompanied by a negative flag of a child, and a negative one never by positive flags of all
+   children (undetermined flags, value 0, constrain nothing). *)
+Definition sum_flag_ok (p : Z) (cs : list Z) : bool :=
+  if 0 <? p then forallb (fun c => 0 <=? c) cs
+  else if p <? 0 then negb (forallb (fun c => 0 <? c) cs)
+  else true.
+
+Definition check_prop (P : ninfo) (Cs : list ninfo) : Z :=
+  let ty := t_type P in
+  let ok := fun (g : ninfo -> Z) => sum_flag_ok (g P) (map g Cs) in
+  match Cs with
+  | [] => 0
+  | _ =>
+    if (ty =? T_SP) || (ty =? T_PIVOTS) || (ty =? T_ONESUM) || (ty =? T_TWOSUM) then
+      (if ok t_reg && ok t_gra && ok t_cog then 0 else 254)
+    else if (ty =? T_DELTASUM) || (ty =? T_YSUM) || (ty =? T_THREESUM) then
+      (if ok t_reg then 0 else 254)
+    else 0
+  end.
+
+Fixpoint check_prop_tree (t : tree) : Z :=
+  match t with
+  | TNode P ch =>
+    let r := check_prop P (map info ch) in
+    if negb (r =? 0) then r
+    else fold_left (fun acc c => if negb (acc =? 0) then acc else check_prop_tree c) ch 0
+  end.
+
 (* bottom-up flag propagation (seymour.c CMRseymourSetAttributes): regularity of an inner node is the minimum of
    its children's (all sum types, pivots and series-parallel nodes preserve regularity both ways) *)
 Fixpoint expected_reg (t : tree) : Z :=
@@ -314,7 +345,8 @@ Definition judge_tree (rec : list Z) : Z :=
            if negb (Nat.eqb (t_m P) m && Nat.eqb (t_n P) n &&
                     mat_eqb (t_M P) (if bot then support M else M)) then 270
            else
-             check_tree tr
+             let r := check_tree tr in
+             if negb (r =? 0) then r else check_prop_tree tr
          end
   | None => 1
   end.
